@@ -470,10 +470,43 @@ theorem laxIpSlice_empty (g : Mem) (o : Nat) :
   unfold laxIpSliceFromSlice ipDispatchHeader
   simp
 
-/-- `Cur.laxSliceIp` against the lax walk from the version dispatch -/
-theorem ip_refinesL (c : Cur) (g : Mem) (hg : ByteMem g) (o l : Nat) (ctx : Ctx) (k : Nat) (ht : Tied c ctx o l)
-    (hst : c.r.stop = none) :
-    RelLaxW g (c.laxSliceIp g o l) (walkN true g (k + 3) c.r .ipAny ctx) := by
+/-- what the lax cursor records for an IPv4 version nibble in 1..19 bytes (the wrinkle; the strict
+    twin is `ShortV4`): the bad IHL, or a length error that requires `ihl*4` bytes -/
+def ShortV4L (g : Mem) (o l : Nat) (c : Cur) (e : PErr) : Prop :=
+  (g o % 16 < 5 ∧ e = .ipIhl (g o % 16)) ∨
+  (5 ≤ g o % 16 ∧
+    e = .len { req := g o % 16 * 4, len := l, src := c.src, layer := .ipv4Header, off := c.off })
+
+/-- the wrinkle: an IPv4 version nibble in 1..19 bytes -/
+theorem ip_refinesL_short (c : Cur) (g : Mem) (o l : Nat) (ctx : Ctx) (k : Nat) (ht : Tied c ctx o l)
+    (hw : g o / 16 = 4 ∧ 0 < l ∧ l < 20) :
+    (∃ e, c.laxSliceIp g o l = c.r.setStop e .ipHeader ∧ ShortV4L g o l c e) ∧
+      walkN true g (k + 3) c.r .ipAny ctx = (c.r, some (mkFault ctx .cutShort .ipv4Header 20)) := by
+  have hav : ctx.avail = l := by unfold Ctx.avail; have := ht.coff; have := ht.stop; omega
+  have hco := ht.coff
+  obtain ⟨h4, h0, h20⟩ := hw
+  have hl1 : ¬ ctx.avail < 1 := by omega
+  have hstep : Spec.step true g c.r .ipAny ctx = ⟨c.r, .ipv4, ctx, none⟩ := by
+    simp [Spec.step, hl1, hco, h4]
+  have hstep2 : Spec.step true g c.r .ipv4 ctx =
+      ⟨c.r, .done, ctx, some (mkFault ctx .cutShort .ipv4Header 20)⟩ := by
+    simp [Spec.step, hav, h20]
+  rw [walkN_next true g (k + 2) _ _ _ _ _ _ (by simp) hstep,
+    walkN_fault true g (k + 1) _ _ _ _ _ _ _ (by simp) hstep2]
+  refine ⟨?_, rfl⟩
+  have hm := laxIpSlice_v4 g o l h4 h0
+  by_cases hi : g o % 16 < 5
+  · simp only [hi, if_true] at hm
+    exact ⟨_, laxSliceIp_err c g o l _ hm (by simp), Or.inl ⟨hi, rfl⟩⟩
+  · have hl : l < g o % 16 * 4 := by omega
+    simp only [hi, hl, if_true, if_false] at hm
+    refine ⟨_, laxSliceIp_errLen c g o l _ hm, Or.inr ⟨by omega, ?_⟩⟩
+    simp [LenError.addOffset, LenError.srcIfSlice, LenError.withSrc]
+
+/-- `Cur.laxSliceIp` against the lax walk from the version dispatch, outside the wrinkle -/
+theorem ip_refinesL_main (c : Cur) (g : Mem) (hg : ByteMem g) (o l : Nat) (ctx : Ctx) (k : Nat) (ht : Tied c ctx o l)
+    (hst : c.r.stop = none) (hnw : ¬ (g o / 16 = 4 ∧ 0 < l ∧ l < 20)) :
+    RelLax (c.laxSliceIp g o l) (walkN true g (k + 3) c.r .ipAny ctx) := by
   have hav : ctx.avail = l := by unfold Ctx.avail; have := ht.coff; have := ht.stop; omega
   have hco := ht.coff
   by_cases h0 : l = 0
@@ -481,7 +514,7 @@ theorem ip_refinesL (c : Cur) (g : Mem) (hg : ByteMem g) (o l : Nat) (ctx : Ctx)
     have hstep : Spec.step true g c.r .ipAny ctx = ⟨c.r, .done, ctx, some (mkFault ctx .cutShort .ipAny 1)⟩ := by
       simp [Spec.step, hav]
     rw [walkN_fault true g (k + 2) _ _ _ _ _ _ _ (by simp) hstep, laxSliceIp_errLen c g o 0 _ (laxIpSlice_empty g o)]
-    refine relLaxW_of (relLax_stop hst ⟨by simp [mkFault, StopLayer], ?_⟩)
+    refine relLax_stop hst ⟨by simp [mkFault, StopLayer], ?_⟩
     exact lenRel_fix _ _ c ctx o 0 ht (by lenrel)
   · have hl1 : ¬ ctx.avail < 1 := by omega
     by_cases h4 : g o / 16 = 4
@@ -489,52 +522,28 @@ theorem ip_refinesL (c : Cur) (g : Mem) (hg : ByteMem g) (o l : Nat) (ctx : Ctx)
         simp [Spec.step, hl1, hco, h4]
       rw [walkN_next true g (k + 2) _ _ _ _ _ _ (by simp) hstep]
       have hm := laxIpSlice_v4 g o l h4 (by omega)
-      by_cases h20 : l < 20
-      · -- the wrinkle: fewer than 20 bytes
+      have h20 : ¬ l < 20 := by omega
+      by_cases hi : g o % 16 < 5
+      · simp only [hi, if_true] at hm
+        rw [laxSliceIp_err c g o l _ hm (by simp)]
         have hstep2 : Spec.step true g c.r .ipv4 ctx =
-            ⟨c.r, .done, ctx, some (mkFault ctx .cutShort .ipv4Header 20)⟩ := by
-          simp [Spec.step, hav, h20]
+            ⟨c.r, .done, ctx, some (mkFault ctx .content .ipv4Header 0 (g o % 16))⟩ := by
+          simp [Spec.step, hav, h20, hco, h4, hi]
         rw [walkN_fault true g (k + 1) _ _ _ _ _ _ _ (by simp) hstep2]
-        by_cases hi : g o % 16 < 5
-        · simp only [hi, if_true] at hm
-          rw [laxSliceIp_err c g o l _ hm (by simp)]
-          refine ⟨by simp [noStop_of_none hst], ?_⟩
-          right
-          refine ⟨rfl, rfl, rfl, rfl, by simp [mkFault, hav]; omega, by simp [mkFault, hav, h20],
-            by simp [mkFault, hco, h4], ?_⟩
-          left
-          simp [mkFault, hco, hi]
-        · have hl : l < g o % 16 * 4 := by omega
-          simp only [hi, hl, if_true, if_false] at hm
+        exact relLax_stop hst ⟨by simp [mkFault, StopLayer], by simp [ErrMatch, ContentMatch, mkFault]⟩
+      · by_cases hl : l < g o % 16 * 4
+        · simp only [hi, hl, if_true, if_false] at hm
           rw [laxSliceIp_errLen c g o l _ hm]
-          refine ⟨by simp [noStop_of_none hst], ?_⟩
-          right
-          refine ⟨rfl, rfl, rfl, rfl, by simp [mkFault, hav]; omega, by simp [mkFault, hav, h20],
-            by simp [mkFault, hco, h4], ?_⟩
-          right
-          refine ⟨by simp [mkFault, hco]; omega, c.src, by simpa [mkFault] using ht.src, ?_⟩
-          simp [mkFault, hco, hav, LenError.addOffset, LenError.srcIfSlice, LenError.withSrc, ht.off]
-      · by_cases hi : g o % 16 < 5
-        · simp only [hi, if_true] at hm
-          rw [laxSliceIp_err c g o l _ hm (by simp)]
           have hstep2 : Spec.step true g c.r .ipv4 ctx =
-              ⟨c.r, .done, ctx, some (mkFault ctx .content .ipv4Header 0 (g o % 16))⟩ := by
-            simp [Spec.step, hav, h20, hco, h4, hi]
+              ⟨c.r, .done, ctx, some (mkFault ctx .cutShort .ipv4Header (g o % 16 * 4))⟩ := by
+            simp [Spec.step, hav, h20, hco, h4, hi, hl]
           rw [walkN_fault true g (k + 1) _ _ _ _ _ _ _ (by simp) hstep2]
-          exact relLaxW_of (relLax_stop hst ⟨by simp [mkFault, StopLayer], by simp [ErrMatch, ContentMatch, mkFault]⟩)
-        · by_cases hl : l < g o % 16 * 4
-          · simp only [hi, hl, if_true, if_false] at hm
-            rw [laxSliceIp_errLen c g o l _ hm]
-            have hstep2 : Spec.step true g c.r .ipv4 ctx =
-                ⟨c.r, .done, ctx, some (mkFault ctx .cutShort .ipv4Header (g o % 16 * 4))⟩ := by
-              simp [Spec.step, hav, h20, hco, h4, hi, hl]
-            rw [walkN_fault true g (k + 1) _ _ _ _ _ _ _ (by simp) hstep2]
-            refine relLaxW_of (relLax_stop hst ⟨by simp [mkFault, StopLayer], ?_⟩)
-            exact lenRel_fix _ _ c ctx o l ht (by lenrel)
-          · simp only [hi, hl, if_false] at hm
-            rw [laxSliceIp_ok c g o l _ hm]
-            exact relLaxW_of (afterIpL c g o l ctx k .ipv4 _ ht hst (by simp)
-              (ipv4_stepL g hg c.r ctx o l hco ht.stop (by omega) h4 (by omega) (by omega)))
+          refine relLax_stop hst ⟨by simp [mkFault, StopLayer], ?_⟩
+          exact lenRel_fix _ _ c ctx o l ht (by lenrel)
+        · simp only [hi, hl, if_false] at hm
+          rw [laxSliceIp_ok c g o l _ hm]
+          exact afterIpL c g o l ctx k .ipv4 _ ht hst (by simp)
+            (ipv4_stepL g hg c.r ctx o l hco ht.stop (by omega) h4 (by omega) (by omega))
     · by_cases h6 : g o / 16 = 6
       · have hstep : Spec.step true g c.r .ipAny ctx = ⟨c.r, .ipv6, ctx, none⟩ := by
           simp [Spec.step, hl1, hco, h6]
@@ -547,18 +556,39 @@ theorem ip_refinesL (c : Cur) (g : Mem) (hg : ByteMem g) (o l : Nat) (ctx : Ctx)
               ⟨c.r, .done, ctx, some (mkFault ctx .cutShort .ipv6Header 40)⟩ := by
             simp [Spec.step, hav, h40]
           rw [walkN_fault true g (k + 1) _ _ _ _ _ _ _ (by simp) hstep2]
-          refine relLaxW_of (relLax_stop hst ⟨by simp [mkFault, StopLayer], ?_⟩)
+          refine relLax_stop hst ⟨by simp [mkFault, StopLayer], ?_⟩
           exact lenRel_fix _ _ c ctx o l ht (by lenrel)
         · have hm := laxIpSlice_v6 g o l h6 (by omega)
           simp only [h40, if_false] at hm
           rw [laxSliceIp_ok c g o l _ hm]
-          exact relLaxW_of (afterIpL c g o l ctx k .ipv6 _ ht hst (by simp)
-            (ipv6_stepL g hg c.r ctx o l hco ht.stop (by omega) h6))
+          exact afterIpL c g o l ctx k .ipv6 _ ht hst (by simp)
+            (ipv6_stepL g hg c.r ctx o l hco ht.stop (by omega) h6)
       · have hstep : Spec.step true g c.r .ipAny ctx =
             ⟨c.r, .done, ctx, some (mkFault ctx .content .ipAny 0 (g o / 16))⟩ := by
           simp [Spec.step, hl1, hco, h4, h6]
         rw [walkN_fault true g (k + 2) _ _ _ _ _ _ _ (by simp) hstep,
           laxSliceIp_err c g o l _ (laxIpSlice_other g o l h4 h6 (by omega)) (by simp)]
-        exact relLaxW_of (relLax_stop hst ⟨by simp [mkFault, StopLayer], by simp [ErrMatch, ContentMatch, mkFault]⟩)
+        exact relLax_stop hst ⟨by simp [mkFault, StopLayer], by simp [ErrMatch, ContentMatch, mkFault]⟩
+
+/-- `Cur.laxSliceIp` against the lax walk from the version dispatch, the wrinkle included -/
+theorem ip_refinesL (c : Cur) (g : Mem) (hg : ByteMem g) (o l : Nat) (ctx : Ctx) (k : Nat) (ht : Tied c ctx o l)
+    (hst : c.r.stop = none) :
+    RelLaxW g (c.laxSliceIp g o l) (walkN true g (k + 3) c.r .ipAny ctx) := by
+  by_cases hw : g o / 16 = 4 ∧ 0 < l ∧ l < 20
+  · obtain ⟨⟨e, he, hsv⟩, hwalk⟩ := ip_refinesL_short c g o l ctx k ht hw
+    have hav : ctx.avail = l := by unfold Ctx.avail; have := ht.coff; have := ht.stop; omega
+    have hco := ht.coff
+    rw [he, hwalk]
+    refine ⟨by simp [noStop_of_none hst], ?_⟩
+    right
+    refine ⟨rfl, rfl, rfl, rfl, by simp [mkFault, hav]; omega, by simp [mkFault, hav]; omega,
+      by simp [mkFault, hco, hw.1], ?_⟩
+    rcases hsv with ⟨hi, rfl⟩ | ⟨hi, rfl⟩
+    · left
+      simp [mkFault, hco, hi]
+    · right
+      refine ⟨by simp [mkFault, hco]; omega, c.src, by simpa [mkFault] using ht.src, ?_⟩
+      simp [mkFault, hco, hav, ht.off]
+  · exact relLaxW_of (ip_refinesL_main c g hg o l ctx k ht hst hw)
 
 end EpModel.Lemmas.RefineLax
